@@ -26,7 +26,7 @@ type Script struct {
 }
 
 type SigSpec struct {
-	Mode string `json:"m,omitempty"` // "" / "die" | "ignore" (only SIGKILL kills)
+	Mode string `json:"m,omitempty"` // "" / "die" | "ignore" (only SIGKILL kills) | "eperm" (Stop reports EPERM, the command ends ms later)
 	Ms   int    `json:"ms,omitempty"`
 	Code *int   `json:"c,omitempty"` // exit code when killed by the signal (default -1)
 }
@@ -92,6 +92,20 @@ func pick(list []int, att int, def int) int {
 // LineID is the id text embedded in every scripted output line.
 func LineID(name string, att int, stream string, k int) string {
 	return fmt.Sprintf("#L|%s|%d|%s|%d#", name, att, stream, k)
+}
+
+// LineText is the full text (without newline) of the k-th line of a stream:
+// the id, for every third line some text that is hostile to formatters and
+// encoders, then padding up to length.
+func LineText(name string, att int, stream string, k int, length int) string {
+	line := LineID(name, att, stream, k)
+	if k%3 == 1 {
+		line += ` 100% done %s %d %v %+v %% a\tb "quoted" \back {"j":1} <&> ünï`
+	}
+	if length > len(line) {
+		line += strings.Repeat("x", length-len(line)-1) + "$"
+	}
+	return line
 }
 
 // ------------------------------------------------------------------ pipe
@@ -198,6 +212,7 @@ type Proc struct {
 	killCode int
 	deadline time.Time
 	exited   bool
+	reaped   bool // Wait() returned
 	code     int
 	pid      int
 
@@ -310,10 +325,7 @@ func (p *Proc) writeChunks(when string) {
 		for i := 0; i < c.N; i++ {
 			k := counters[c.Stream]
 			counters[c.Stream]++
-			line := LineID(p.name, p.att, c.Stream, k)
-			if c.Len > len(line) {
-				line += strings.Repeat("x", c.Len-len(line)-1) + "$"
-			}
+			line := LineText(p.name, p.att, c.Stream, k, c.Len)
 			if !p.w.NoOutEvents {
 				p.w.Rec(Event{Kind: EvOut, Proc: p.name, Att: p.att, Str: c.Stream, Code: k})
 			}
@@ -410,7 +422,10 @@ func (p *Proc) Wait() error {
 	if p.stderr != nil {
 		_ = pipeReader{p.stderr}.Close()
 	}
-	p.w.Rec(Event{Kind: EvWaitRet, Proc: p.name, Inst: p.inst, Att: p.att})
+	p.w.mu.Lock()
+	p.reaped = true
+	p.w.recLocked(Event{Kind: EvWaitRet, Proc: p.name, Inst: p.inst, Att: p.att})
+	p.w.mu.Unlock()
 	if p.code != 0 {
 		return fmt.Errorf("exit status %d", p.code)
 	}
@@ -429,9 +444,17 @@ func (p *Proc) Stop(sig int, parentOnly bool) error {
 	st := ""
 	if !alive {
 		st = "dead"
+		if p.started && !p.reaped {
+			st = "zombie"
+		}
 	}
 	w.recLocked(Event{Kind: EvSignal, Proc: p.name, Inst: p.inst, Att: p.att, Code: sig, Flag: parentOnly, Str: st})
 	if !alive {
+		if st == "zombie" {
+			// like the OS: an exited but not yet reaped command can still be
+			// signalled without error; ESRCH only once Wait() has collected it
+			return nil
+		}
 		return syscall.ESRCH
 	}
 	mode, ms, code := "die", 0, -1
@@ -450,6 +473,12 @@ func (p *Proc) Stop(sig int, parentOnly bool) error {
 	if mode == "ignore" {
 		return nil
 	}
+	var ret error
+	if mode == "eperm" {
+		// fault: the signal call reports EPERM; the command is still alive when
+		// the call returns and ends only ms later
+		ret = syscall.EPERM
+	}
 	at := time.Now().Add(time.Duration(ms) * time.Millisecond)
 	if !p.killed || at.Before(p.killAt) {
 		p.killed = true
@@ -464,5 +493,5 @@ func (p *Proc) Stop(sig int, parentOnly bool) error {
 		}
 	}
 	w.cond.Broadcast()
-	return nil
+	return ret
 }
